@@ -124,7 +124,13 @@ def check(ctx):
     # every create_func handed to the request engines really BUILDS the request when called
     # (a lambda returning a pre-built object re-sends a stale handler: expired timeout clock,
     # same sequence number on every retry)
-    BUILDERS = ("request", "full_request", "set", "set_value", "keypress")
+    BUILDERS = {"request", "full_request", "set", "set_value", "keypress"}
+    hclasses = {c.short for c in repo.subclasses(BASE)} | {BASE}
+    for c_ in repo.subclasses(BASE):
+        for m_ in c_.methods.values():
+            if m_.is_static:
+                BUILDERS.add(m_.name)  # every static builder of a handler class, also ones added later
+    BUILDERS |= hclasses  # direct construction
     n_cf = 0
     for fi2 in repo.all_functions():
         for n in ast.walk(fi2.node):
@@ -283,6 +289,14 @@ def check(ctx):
     for h in heads:
         avoid = [x for x in gw.loop_body(h) if x.suspends]
         ctx.ob("R5", f"{w.qual}::yields", h not in gw.reach_from(h, avoid=avoid), f"{w.qual}: polling loop has an iteration without a suspension point", w.loc)
+    # the attempt's clock restarts only when THIS request's reply was taken: a restart on any other path
+    # (foreign datagram at the head, empty poll) lets unrelated traffic postpone the timeout for ever
+    rs = calls_named(gw, "_reset_timeout")
+    for n_, c_ in rs:
+        own = any(p_ and "can_handle(" in t_ for t_, p_ in gw.guard_atoms(n_))
+        ctx.ob("R5", f"{w.qual}::timeout-restarts-only-on-own-reply", own,
+               f"{w.qual}: `_reset_timeout()` (L{n_.lineno}) runs on a path where this handler did not accept the datagram (guards {sorted(gw.guard_atoms(n_))}): while other traffic keeps arriving the attempt never times out, so `get` neither retransmits nor fails and keeps the request lock",
+               loc(w, n_.ast))
     ht = repo.own_method(BASE, "has_timedout")
     t = ast.unparse(ht.node)
     ctx.ob("R5", f"{ht.qual}::age-vs-timeout", "self.age > self._timeout_in_seconds" in t, f"{ht.qual} no longer compares age with the timeout", ht.loc)
